@@ -1,7 +1,7 @@
 """C02 — sample-type conversions follow the documented rules exactly."""
 from fractions import Fraction
 from .. import kernels as K
-from ..core import Violation
+from ..core import Violation, modules_for
 
 PCM = {"pcm8s": (8, False, False), "pcm8u": (8, True, False), "pcm16le": (16, False, False), "pcm16be": (16, False, True),
        "pcm24le": (24, False, False), "pcm24be": (24, False, True), "pcm32le": (32, False, False), "pcm32be": (32, False, True)}
@@ -97,7 +97,7 @@ def rule_ok(c, k):
 def run(ctx):
     if getattr(ctx, "replay", None):
         return ctx.replay_script(ctx.replay)
-    failed = ctx.lean_stage(["SfProps.C02", "SfProps.C02Float"])
+    failed = ctx.lean_stage(modules_for("C02"))
     quick = ctx.tier == "quick"
     nrand = 20000 if quick else 400000
     rng = ctx.rng
